@@ -222,6 +222,14 @@ def run_case(ctx, case):
     # a small pool of REUSED paths: a later case overwrites (within the same second, often with the same N) a file that an
     # earlier case wrote and loaded - what a user does when iterating on "allmotl.em"
     path = os.path.join(ctx.scratch, "m_%d.em" % (case["i"] % 3)) if case["i"] % 4 else os.path.join(ctx.scratch, "u_%d.em" % case["i"])
+    if case["i"] % 5 == 2:
+        # file names as users choose them: stems ending in the letters of the extension, dots, brackets, wildcards, blanks,
+        # non-ASCII letters, sub-directories with such names (all legal POSIX names; reused across cases like the pool above)
+        stems = ["ribosome", "proteasome", "ref_frame", "m.e.m", "allmotl_e", "x.em", "motl_[1]", "motl_1", "tomo*", "q?x", "a b c",
+                 "\u03b1\u03b2_\u00e9", "mm", ".em_hidden", "refs[bin2]/allmotl_1", "run 1/ribosome", "d.em/e"]
+        stem = stems[(case["i"] // 5) % len(stems)]
+        path = os.path.join(ctx.scratch, stem + ".em")
+        os.makedirs(os.path.dirname(path), exist_ok=True)
     if case["path_kind"] == "Motl.write_out":
         ok, m = ctx.call("Motl(df)", cm.Motl, t)
         if not ok:
@@ -287,6 +295,35 @@ def run_case(ctx, case):
             good = w2 is None
             w = dict(w2 or {}, what="second write of the same object differs from the list the user built")
         ctx.check("roundtrip", good, w)
+    # ---- a table DERIVED from a loaded list (columns permuted, some values replaced) is written like any other table -----
+    if okr and isinstance(rr, tuple) and isinstance(rr[0], pd.DataFrame) and len(rr[0]) == len(exp):
+        drng = ctx.rng(case["i"], 9)
+        loaded = rr[0]
+        d = loaded[[CANON[k] for k in drng.permutation(20)]]            # DataFrame.attrs and dtypes travel with it
+        if drng.random() < 0.7:
+            d = d * 1.0 + 0.0
+            cc = str(drng.choice(CANON))
+            d.loc[d.index[:: max(1, len(d) // 3)], cc] = drng.normal(size=len(d.index[:: max(1, len(d) // 3)])) * 30
+        if drng.random() < 0.4:
+            d = d.copy()
+            d.iloc[int(drng.integers(0, len(d))), int(drng.integers(0, 20))] = np.nan
+        exp_d = expected_f32(d).astype(np.float64)
+        path3 = os.path.join(ctx.scratch, "derived_%d.em" % (case["i"] % 2))
+        if drng.random() < 0.5:
+            okd, md = ctx.call("EmMotl(derived)", cm.EmMotl, d)
+            okd = okd and ctx.call("EmMotl.write_out(derived)", md.write_out, path3)[0]
+        else:
+            okd, md = ctx.call("Motl(derived)", cm.Motl, d)
+            okd = okd and ctx.call("Motl.write_out(derived)", md.write_out, path3, "emmotl")[0]
+        if okd:
+            em = files.parse_em(path3)
+            good = "error" not in em and tuple(em["dims"]) == (20, len(exp_d), 1)
+            w = {"what": "table derived from a loaded list", "header": {k: em.get(k) for k in ("dims", "code", "nbytes")}}
+            if good:
+                w2 = first_diff(em["data"][:, :, 0].T.astype(np.float64), exp_d)
+                good = w2 is None
+                w = dict(w2 or {}, what="file written from a table derived from a loaded list (permuted columns) differs from float32(table)")
+            ctx.check("roundtrip", good, w)
     # overwrite the first path with a different list of the SAME length and load it again
     other = ctx.rng(case["i"], 7).normal(size=t.shape) * 50
     t2 = pd.DataFrame(other, columns=list(t.columns), index=t.index)
